@@ -143,6 +143,11 @@ class Interp:
         except sqlite3.Error as e:
             if str(e).startswith(('no such table', 'no such column')):
                 raise MissingTable(f'{e} (asked of {integ}): {sql}')
+            m3 = re.search(r'(?:FROM|JOIN) ("\w+"\."\w+"\."\w+")', sql)
+            if m3 and 'syntax error' in str(e):
+                # a table named with a schema part inside the integration (`<integration>.<schema>.<table>`): the reference engine cannot
+                # even read such a name, and no integration of the harness holds schemas - it is a table the integration does not have
+                raise MissingTable(f'no such table: {m3.group(1).replace(chr(34), "")} (asked of {integ}): {sql}')
             raise NotInterpretable(f'fetch query not executable: {e}: {sql}')
         rows = cur.fetchall()
         names = [d[0].lower() for d in cur.description]
